@@ -43,7 +43,7 @@ func c14Pool(seed int64, tier string) []c14val {
 	// floats: both signs of zero, fractions on both sides of every small int (negative ones too: truncation
 	// and floor differ there), direct neighbours of ints, infinities, extremes, the 2^53 neighbourhood
 	floats := []float64{0, math.Copysign(0, -1), 1, -1, 2, 0.5, 1.5, 2.0000000000000004, 1.9999999999999998, 3, 7, -7, 100, math.Inf(1), math.Inf(-1), 1e300, -1e300, 5e-324, float64(1 << 53), 9007199254740991, 4503599627370496.5, 1e-9,
-		-0.5, -1.5, -2.5, -0.25, -1.0000000000000002, -0.9999999999999999, -2.0000000000000004, -1.9999999999999998, -6.5, -7.5, -99.5, -100.5, 2.5, 6.5, 99.5, -5e-324, -1e-9, -2, -3, -100, 9007199254740994, 9223372036854775807, -9223372036854775808, 1e19, -1e19}
+		-0.5, -1.5, -2.5, -0.25, -1.0000000000000002, -0.9999999999999999, -2.0000000000000004, -1.9999999999999998, -6.5, -7.5, -99.5, -100.5, 2.5, 6.5, 99.5, -5e-324, -1e-9, -2, -3, -100, 9007199254740994, 9223372036854775807, -9223372036854775808, 1e19, -1e19, math.NaN()}
 	strs := []string{"", "a", "b", "ab", "aa", "A", "a ", "é", "日本", "z", "10", "9", "\x00", "a\x00"}
 	for _, i := range ints {
 		add(i, std)
@@ -72,7 +72,7 @@ func c14Pool(seed int64, tier string) []c14val {
 	}
 	// containers in several representations
 	L := func(v ...ref.Value) *ref.List { return ref.NewList(v...) }
-	lists := []*ref.List{L(), L(int64(1)), L(1.0), L(int64(1), int64(2)), L(int64(2), int64(1)), L(int64(1), 2.0), L("a"), L("a", int64(1)), L(int64(1), "a"), L(L()), L(L(int64(1))), L(L(1.0)), L(L(int64(1)), L()), L(true), L(int64(1), int64(2), int64(3)),
+	lists := []*ref.List{L(math.NaN()), L(int64(1), math.NaN()), L(), L(int64(1)), L(1.0), L(int64(1), int64(2)), L(int64(2), int64(1)), L(int64(1), 2.0), L("a"), L("a", int64(1)), L(int64(1), "a"), L(L()), L(L(int64(1))), L(L(1.0)), L(L(int64(1)), L()), L(true), L(int64(1), int64(2), int64(3)),
 		L(ref.MapOf("a", int64(1))), L(ref.MapOf("a", 1.0)), L(int64(1), int64(1)), L("a", "b")}
 	for _, l := range lists {
 		add(l, bridge.Variant{})
@@ -129,7 +129,7 @@ func (c14) Plan(tier string) wk.Plan {
 		Level: "exploration", Cases: cases, Chunk: 2000, Configs: single("seq", 16), CaseBudget: 20,
 		Rule:        fmt.Sprintf("value pool of %d values (ints |x|<2^53 incl. boundaries, floats incl. +-0, +-Inf, neighbours of ints, subnormal, strings incl. empty/unicode/NUL, bools, nested lists eager and lazy, maps in 5 representations and different key orders, closures); the first %d cases are ALL ordered pairs (a,b): the 8 relations = != < > <= >= ~ plus min/max/switch/order are evaluated through Generate in both operand orders and checked against the laws (symmetry of =, != as negation, > as swapped <, <= as < or =, >= as swapped <=, irreflexivity/asymmetry of <, int/float by numeric value, ~ as exists-equal, derived built-ins consistent, incomparable -> error) and against the reference model; the remaining cases are random triples for transitivity of < and of = . Non-trivial = pair/triple of comparable, non-identical values or a container pair; distinct by the described values.", n, n*n),
 		Floor:       1000,
-		Assumptions: []string{"for containers that hold a partially incomparable pair, false vs error between a=b and b=a is accepted (which pair is met first is unspecified); true vs anything else is not", "NaN is not in the pool (the statement excludes it)"},
+		Assumptions: []string{"for containers that hold a partially incomparable pair, false vs error between a=b and b=a is accepted (which pair is met first is unspecified); true vs anything else is not", "NaN (scalar and inside lists) is in the pool for the operator laws and the model comparison; reflexivity of =, trichotomy and order/orderRev are not judged on values that contain NaN (the statement exempts NaN from reflexivity, and a sort is not determined without a total order)"},
 	}
 }
 
@@ -211,7 +211,7 @@ func (c14) Run(c *wk.Case) {
 			return
 		}
 		// trichotomy-style consistency on one family: exactly one of <, =, > for comparable scalars
-		if lt(x, y) != "E" && scalar {
+		if lt(x, y) != "E" && scalar && !strings.Contains(x.desc+y.desc, "NaN") {
 			cnt := 0
 			for _, s := range []string{lt(x, y), eq(x, y), lt(y, x)} {
 				if s == "T" {
@@ -237,6 +237,9 @@ func (c14) Run(c *wk.Case) {
 		}
 		ident := &ref.Closure{Arity: 1, Native: func(in *ref.Interp, a []ref.Value) (ref.Value, *ref.Err) { return a[0], nil }}
 		for _, m := range []string{"order", "orderRev"} {
+			if strings.Contains(strings.Join(ds, " "), "NaN") {
+				break // no total order with NaN: the sorted sequence is not determined by "<"
+			}
 			wv, we := in.CallMethod(ref.NewList(rl...), m, []ref.Value{ident})
 			if we != nil && we.Unspec {
 				c.Count("reference_unspecified", 1)
@@ -336,7 +339,7 @@ func (c14) Run(c *wk.Case) {
 			fail("lt-not-irreflexive", "a<a")
 			return
 		}
-		if a.kind != "closure" && !strings.Contains(a.desc, "closure") && rel["="] != "T" {
+		if a.kind != "closure" && !strings.Contains(a.desc, "closure") && !strings.Contains(a.desc, "NaN") && rel["="] != "T" {
 			fail("eq-not-reflexive", fmt.Sprintf("a=a is %s", rel["="]))
 			return
 		}
